@@ -135,7 +135,12 @@ def _work(args) -> dict:
             strat = tvgen.value_strategy(sub.objects, root, cfg)
 
             def one(x):
-                tv, _ = x
+                tv0, _ = x
+                # every pinned case is read in three member orders (as generated, reversed, sorted)
+                for tv in (tv0, tvgen.reorder(tv0, "reversed"), tvgen.reorder(tv0, "sorted")):
+                    one_order(tv)
+
+            def one_order(tv):
                 j = erase(tv)
                 res["evaluations"] += 1
                 res["pairs"][f"{occ}#{idx}"] += 1
